@@ -109,14 +109,18 @@ Proof. intros H. unfold va_to_slice, va_element_size. rewrite pmul_Val by exact 
 Lemma va_ptr_guard_eq m a : va_nelem a * va_esz a < W64 ->
   va_ptr_guard m a = Val (PG (va_addr a) (va_nelem a * va_esz a)).
 Proof. intros H. unfold va_ptr_guard, va_element_size, va_len. rewrite pmul_Val by exact H. reflexivity. Qed.
-Lemma va_ref_at_eq m a i : va_addr a + va_nelem a * va_esz a < W64 ->
+Lemma ISZ_MAX_val : ISZ_MAX = 9223372036854775807. Proof. reflexivity. Qed.
+Lemma va_ref_at_eq m a i : va_addr a + va_nelem a * va_esz a < W64 -> va_nelem a * va_esz a <= ISZ_MAX ->
   va_ref_at m a i =
   if i <? va_nelem a then Val (VR (va_addr a + va_esz a * i) (va_esz a)) else Panic 1135.
 Proof.
-  intros H. unfold va_ref_at, va_element_size, ptr_add.
+  intros H HI. unfold va_ref_at, va_element_size, ptr_offset_isize.
   destruct (N.ltb_spec i (va_nelem a)) as [Hi|Hi]; cbn [passert bind]; [|reflexivity].
   assert (va_esz a * i <= va_nelem a * va_esz a) by nia.
-  rewrite pmul_Val by lia. cbn [bind]. rewrite N.mod_small by lia. reflexivity.
+  rewrite pmul_Val by lia. cbn [bind].
+  destruct (N.leb_spec (va_esz a * i) ISZ_MAX) as [_|?]; [|lia].
+  destruct (N.ltb_spec (va_addr a + va_esz a * i) W64) as [_|?]; [|lia].
+  cbn [bind]. rewrite N.mod_small by lia. reflexivity.
 Qed.
 
 (* from_slice: Some exactly for a slice of size_of::<T>() != 0 bytes at a multiple of the alignment *)
@@ -263,8 +267,8 @@ End VM.
 Lemma derive_iff m p op c : acc_valid p -> op_wf op ->
   (derive m p op = Val (Ok c) <-> fits p op /\ c = child p op).
 Proof.
-  intros Hv Hwf. unfold acc_valid in Hv.
-  destruct p as [s|r|a|t|t|h|r|g]; cbn [acc_base acc_len] in Hv.
+  intros [Hv HvI] Hwf.
+  destruct p as [s|r|a|t|t|h|r|g]; cbn [acc_base acc_len] in Hv, HvI.
   - (* slice *)
     assert (HVM : derive_vm m (vs_get_slice m s) (vs_len s) op = Val (Ok c) <->
                   fits_vm (vs_addr s) (vs_size s) op /\ c = child_vm (vs_addr s) (vs_size s) op).
@@ -311,9 +315,9 @@ Proof.
     destruct op; cbn [derive fits child]; try (split; [discriminate|intros [[] _]]).
     unfold vr_to_slice. split; [intros E; inversion E; split; [exact I|reflexivity]|intros [_ ->]; reflexivity].
   - (* VolatileArrayRef *)
-    cbn [va_addr va_nelem va_esz] in Hv.
+    cbn [va_addr va_nelem va_esz] in Hv, HvI.
     destruct op; cbn [derive fits child]; try (split; [discriminate|intros [[] _]]).
-    + rewrite va_ref_at_eq by exact Hv.
+    + rewrite va_ref_at_eq by assumption.
       destruct (N.ltb_spec index (va_nelem a)) as [Hi|Hi]; cbn [bind].
       * split; [intros E; inversion E; split; [assumption|reflexivity]|intros [_ ->]; reflexivity].
       * split; [discriminate|intros [X _]; lia].
@@ -348,12 +352,13 @@ Qed.
 (* ================================================================== the property, one step *)
 Lemma child_inside p op : acc_valid p -> fits p op -> inside p (child p op) /\ acc_valid (child p op).
 Proof.
-  unfold acc_valid, inside. intros Hv Hf.
+  unfold acc_valid, inside. intros [Hv HvI] Hf.
   destruct p as [s|r|a|t|t|h|r|g]; cbn [fits] in Hf; try contradiction;
     destruct op; cbn [fits_vm] in Hf; try contradiction;
     cbn [child child_vm acc_base acc_len vs_addr vs_size vr_addr vr_esz va_addr va_nelem va_esz
          tr_addr tr_size rg_addr rg_size gr_map] in *;
-    try (destruct Hf as (? & ? & ?)); try (destruct Hf as (? & ?)); try lia; try nia.
+    repeat match goal with H : _ /\ _ |- _ => destruct H end;
+    try (rewrite ISZ_MAX_val in *; lia); try (rewrite ISZ_MAX_val in *; nia).
 Qed.
 
 Lemma child_aligned p op : fits p op -> acc_aligned (child p op).
@@ -432,7 +437,7 @@ Lemma gm_get_slice_lemma : forall m fr addr count s,
 Proof.
   intros m fr addr count s Hv E. unfold gm_get_slice, gm_to_region_addr in E.
   destruct fr as [r|]; [|cbn [bind] in E; discriminate].
-  specialize (Hv r eq_refl). unfold acc_valid in Hv. cbn [acc_base acc_len] in Hv.
+  specialize (Hv r eq_refl). destruct Hv as [Hv HvI]. cbn [acc_base acc_len] in Hv, HvI.
   rewrite gr_to_region_addr_eq in E.
   destruct (N.leb_spec (gr_base r) addr) as [Hb|Hb]; cbn [andb] in E; [|discriminate].
   destruct (N.ltb_spec (addr - gr_base r) (rg_size (gr_map r))) as [Hl|Hl]; [|discriminate].
@@ -450,7 +455,7 @@ Lemma gm_get_host_address_lemma : forall fr addr p,
 Proof.
   intros fr addr p Hv E. unfold gm_get_host_address, gm_to_region_addr in E.
   destruct fr as [r|]; [|cbn [bind] in E; discriminate].
-  specialize (Hv r eq_refl). unfold acc_valid in Hv. cbn [acc_base acc_len] in Hv.
+  specialize (Hv r eq_refl). destruct Hv as [Hv HvI]. cbn [acc_base acc_len] in Hv, HvI.
   rewrite gr_to_region_addr_eq in E.
   destruct (N.leb_spec (gr_base r) addr) as [Hb|Hb]; cbn [andb] in E; [|discriminate].
   destruct (N.ltb_spec (addr - gr_base r) (rg_size (gr_map r))) as [Hl|Hl]; [|discriminate].
@@ -467,18 +472,17 @@ Proof. intros; split; reflexivity. Qed.
 (* the same, with [inside] and [acc_valid] spelled out *)
 Lemma derive_contained_flat : forall m p op c, acc_valid p -> op_wf op ->
   derive m p op = Val (Ok c) ->
-  acc_base p <= acc_base c /\ acc_base c + acc_len c <= acc_base p + acc_len p /\ acc_base c + acc_len c < W64.
+  acc_base p <= acc_base c /\ acc_base c + acc_len c <= acc_base p + acc_len p /\ acc_valid c.
 Proof.
   intros m p op c Hv Hwf E. destruct (derive_contained_lemma m p op c Hv Hwf E) as [[H1 H2] H3].
-  repeat split; assumption.
+  split; [exact H1|split; [exact H2|exact H3]].
 Qed.
 Lemma chain_contained_flat : forall ops m root c, acc_valid root -> Forall op_wf ops ->
   derive_chain m root ops = Val (Ok c) ->
-  acc_base root <= acc_base c /\ acc_base c + acc_len c <= acc_base root + acc_len root /\
-  acc_base c + acc_len c < W64.
+  acc_base root <= acc_base c /\ acc_base c + acc_len c <= acc_base root + acc_len root /\ acc_valid c.
 Proof.
   intros ops m root c Hv Hwf E. destruct (chain_contained_lemma ops m root c Hv Hwf E) as [[H1 H2] H3].
-  repeat split; assumption.
+  split; [exact H1|split; [exact H2|exact H3]].
 Qed.
 
 (* ================================================================== the model satisfies the checker *)
@@ -509,7 +513,7 @@ Proof. intros H. unfold wrapping_sub. destruct (N.leb_spec y x); [reflexivity|li
 Lemma obs_of_closed c ridx a : acc_valid a -> root_base c ridx <= acc_base a ->
   obs_of c ridx a = closed_obs (root_base c ridx) ridx a.
 Proof.
-  intros Hv Hb. unfold acc_valid in Hv. unfold obs_of, closed_obs.
+  intros [Hv _] Hb. unfold obs_of, closed_obs.
   destruct a as [s|r|x|t|t|h|r|g]; cbn [acc_guard acc_base acc_len acc_nelem] in *;
     try (cbn [vs_ptr_guard vr_ptr_guard pg_addr pg_len vs_len vr_len]; rewrite wrapping_sub_le by assumption; reflexivity).
   rewrite va_ptr_guard_eq by lia. cbn [bind pg_addr pg_len]. rewrite wrapping_sub_le by assumption. reflexivity.
@@ -605,7 +609,7 @@ Proof.
     + apply aligned_lemma with (p := p) (d := d); assumption.
   - unfold rel_acc. cbn [g_kind g_ridx g_off g_len g_nelem]. rewrite Hext.
     change (o_ridx ob) with ridx. change (o_off ob) with (acc_base a' - rb). change (o_nelem ob) with (acc_nelem a').
-    fold rb. repeat split; try assumption; try reflexivity; try lia.
+    fold rb. split; [exact Hvc|]. repeat split; try assumption; try reflexivity; try lia.
 Qed.
 
 Lemma class_of_derr_nz e : class_of_derr e <> 0.
@@ -665,7 +669,7 @@ Lemma find_ok l addr i r : wf_regions l ->
   find_region_lin 0 (mk_regions 0 l) addr = Some (i, r) ->
   exists gb sz, nth_error l (N.to_nat i) = Some (gb, sz) /\ In (gb, sz) l /\
     r = GR (RG (REG_BASE + i * REG_STRIDE) sz) gb /\ gb <= addr /\ addr - gb < sz /\
-    REG_BASE + i * REG_STRIDE + sz < W64.
+    REG_BASE + i * REG_STRIDE + sz < W64 /\ sz <= ISZ_MAX.
 Proof.
   intros [Hsz Hlen] E. destruct (find_region_lin_spec l 0 addr i r E) as (gb & sz & Hn & _ & Hr & Ha & Hb).
   rewrite N.sub_0_r in Hn. exists gb, sz.
@@ -673,7 +677,8 @@ Proof.
   assert (Hs : sz < REG_STRIDE). { rewrite Forall_forall in Hsz. apply (Hsz (gb, sz) Hin). }
   assert (Hi : (N.to_nat i < length l)%nat). { apply nth_error_Some. rewrite Hn. discriminate. }
   repeat split; try assumption.
-  rewrite REG_BASE_val, REG_STRIDE_val in *. rewrite W64_val. lia.
+  - rewrite REG_BASE_val, REG_STRIDE_val in *. rewrite W64_val. lia.
+  - rewrite ISZ_MAX_val. rewrite REG_STRIDE_val in Hs. lia.
 Qed.
 
 Lemma run_step_gmem c g o : wf_regions (c_regions c) -> is_slice_root (c_rootk c) = false ->
@@ -689,10 +694,10 @@ Proof.
   destruct (find_region_lin 0 (mk_regions 0 (c_regions c)) (s_a o)) as [[i r]|] eqn:F.
   2:{ destruct (s_rq o) eqn:Q; try exact NA; cbn [option_map finish lift_g bind gm_get_slice gm_get_host_address gm_to_region_addr];
       apply ERR; discriminate. }
-  destruct (find_ok _ _ _ _ Hwf F) as (gb & sz & Hn & Hin & Hr & Ha & Hb & Hbound).
+  destruct (find_ok _ _ _ _ Hwf F) as (gb & sz & Hn & Hin & Hr & Ha & Hb & Hbound & HszI).
   assert (Hrb : root_base c i = REG_BASE + i * REG_STRIDE) by (unfold root_base; rewrite Hroot; reflexivity).
   assert (Hvr : forall r', Some r = Some r' -> acc_valid (AGRegion r')).
-  { intros r' X; inversion X; subst r'. unfold acc_valid. rewrite Hr. cbn [acc_base acc_len gr_map rg_addr rg_size]. exact Hbound. }
+  { intros r' X; inversion X; subst r'. unfold acc_valid. rewrite Hr. cbn [acc_base acc_len gr_map rg_addr rg_size]. split; assumption. }
   destruct (s_rq o) eqn:Q; try exact NA; cbn [option_map snd].
   - (* get_slice *)
     unfold finish, lift_g.
@@ -713,9 +718,8 @@ Proof.
       * unfold containedb. rewrite Hk. cbn [kind_eqb o_ridx o_off]. rewrite Hn.
         unfold obs_reach, obs_extent. cbn [o_len o_glen].
         destruct (s_b o =? GUARD_PANIC); [|rewrite N.max_id]; apply N.leb_le; lia.
-    + unfold rel, rel_acc, obs_extent. cbn [g_kind g_ridx g_off g_len g_nelem o_len kind_of acc_base acc_len acc_nelem vs_addr vs_size].
+    + unfold rel, rel_acc, obs_extent, acc_valid. cbn [g_kind g_ridx g_off g_len g_nelem o_len kind_of acc_base acc_len acc_nelem vs_addr vs_size].
       rewrite Hrb. repeat split; try reflexivity; try lia.
-      unfold acc_valid. cbn [acc_base acc_len vs_addr vs_size]. lia.
   - (* get_host_address *)
     unfold finish, lift_g.
     destruct (gm_get_host_address (Some r) (s_a o)) as [[p|e]|x|] eqn:G; cbn [bind];
@@ -723,7 +727,7 @@ Proof.
     destruct (gm_get_host_address_lemma _ _ _ Hvr G) as (r' & X & _ & _ & Hp & _). inversion X; subst r'. clear X.
     rewrite Hr in Hp. cbn [gr_map gr_base rg_addr rg_size] in Hp.
     rewrite obs_of_closed.
-    2:{ unfold acc_valid. rewrite Hp. cbn [acc_base acc_len]. lia. }
+    2:{ unfold acc_valid. rewrite Hp. cbn [acc_base acc_len]. rewrite ISZ_MAX_val. lia. }
     2:{ rewrite Hrb, Hp. cbn [acc_base]. lia. }
     rewrite Hrb. unfold closed_obs. rewrite Hp. cbn [acc_base acc_len acc_nelem].
     replace (REG_BASE + i * REG_STRIDE + (s_a o - gb) - (REG_BASE + i * REG_STRIDE)) with (s_a o - gb) by lia.
@@ -735,9 +739,8 @@ Proof.
       * unfold containedb. rewrite Hk. cbn [kind_eqb o_ridx o_off]. rewrite Hn.
         unfold obs_reach, obs_extent. cbn [o_len o_glen].
         destruct (1 =? GUARD_PANIC); [|rewrite N.max_id]; apply N.leb_le; lia.
-    + unfold rel, rel_acc, obs_extent. cbn [g_kind g_ridx g_off g_len g_nelem o_len kind_of acc_base acc_len acc_nelem].
-      rewrite Hrb. repeat split; try reflexivity; try lia.
-      unfold acc_valid. cbn [acc_base acc_len]. lia.
+    + unfold rel, rel_acc, obs_extent, acc_valid. cbn [g_kind g_ridx g_off g_len g_nelem o_len kind_of acc_base acc_len acc_nelem].
+      rewrite Hrb. repeat split; try reflexivity; try lia; try (rewrite ISZ_MAX_val; lia).
 Qed.
 
 (* ------------------------------------------------------------------ whole cases *)
@@ -762,13 +765,14 @@ Proof.
   destruct (is_slice_root (c_rootk c)) eqn:Hs.
   - unfold rel, rel_acc, acc_valid, root_base. rewrite Hs.
     cbn [g_kind g_ridx g_off g_len g_nelem kind_of acc_base acc_len acc_nelem vs_addr vs_size].
-    repeat split; try reflexivity; try lia.
+    destruct Hw as [Hw1 Hw2]. repeat split; try reflexivity; try lia.
   - destruct Hw as [Hne [Hsz Hlen]].
     destruct (c_regions c) as [|[gb sz] l] eqn:Hregs; [contradiction|].
     cbn [mk_regions].
     assert (Hs1 : sz < REG_STRIDE) by (inversion Hsz; assumption).
     assert (Hb : REG_BASE + 0 * REG_STRIDE + sz < W64).
     { rewrite REG_BASE_val, REG_STRIDE_val in *. rewrite W64_val. lia. }
+    assert (HbI : sz <= ISZ_MAX) by (rewrite ISZ_MAX_val; rewrite REG_STRIDE_val in Hs1; lia).
     destruct (N.eqb_spec (c_rootk c) RK_GMEM) as [Eg|Eg].
     + rewrite Eg. cbn. split; [reflexivity|]. exact Hs.
     + destruct (N.eqb_spec (c_rootk c) RK_REGION) as [Er|Er].
@@ -792,10 +796,49 @@ Proof.
 Qed.
 
 (* the pointer additions on the way to an accessor meet the language precondition of ptr::add *)
-Lemma ptr_arith_defined_lemma : forall m p op c, acc_valid p -> op_wf op -> acc_len p <= ISZ_MAX ->
+Lemma ptr_arith_defined_lemma : forall m p op c, acc_valid p -> op_wf op ->
   derive m p op = Val (Ok c) -> ptr_add_defined (acc_base p) (acc_base c - acc_base p) /\
   acc_base c = acc_base p + (acc_base c - acc_base p).
 Proof.
-  intros m p op c Hv Hwf Hl E. destruct (derive_contained_lemma m p op c Hv Hwf E) as [[H1 H2] H3].
+  intros m p op c Hv Hwf E. destruct (derive_contained_lemma m p op c Hv Hwf E) as [[H1 H2] H3].
   unfold ptr_add_defined, acc_valid in *. repeat split; lia.
+Qed.
+
+(* ================================================================== what an accepting verdict means
+   (about the checker alone: whatever observation ok_C01 accepts, every accessor in it lies in the root) *)
+Lemma result_kind_not_gmem k q rk : result_kind k q = Some rk -> kind_eqb rk KGMem = false.
+Proof.
+  destruct q; cbn [result_kind]; destruct k; cbn [is_vm]; intros E; inversion E; reflexivity.
+Qed.
+
+Lemma obs_extent_le_reach rk o ob : obs_extent rk o ob <= obs_reach rk o ob.
+Proof. unfold obs_reach. destruct (o_glen ob =? GUARD_PANIC); lia. Qed.
+
+Lemma checker_sound_gen c L : forall ops obs g,
+  kind_eqb (g_kind g) KGMem = false -> g_off g + g_len g <= L ->
+  chain_ok c g ops obs = true -> all_inside L g ops obs.
+Proof.
+  induction ops as [|o ops IH]; intros obs g Hk Hb H; destruct obs as [|ob obs]; cbn [chain_ok all_inside] in *;
+    try exact I; try discriminate.
+  apply andb_true_iff in H. destruct H as [H1 H2].
+  unfold step_ok in H1. unfold obs_inside_root. unfold step_geom in *.
+  destruct (N.eqb_spec (o_class ob) 0) as [Hc|Hc].
+  - destruct (result_kind (g_kind g) (s_rq o)) as [rk|] eqn:RK; [|discriminate].
+    apply andb_true_iff in H1. destruct H1 as [H1 _]. apply andb_true_iff in H1. destruct H1 as [_ H1].
+    unfold containedb in H1. rewrite Hk in H1.
+    apply andb_true_iff in H1. destruct H1 as [H1 H3]. apply andb_true_iff in H1. destruct H1 as [_ H1].
+    apply N.leb_le in H1. apply N.leb_le in H3.
+    split.
+    + intros _. exists rk. split; [reflexivity|lia].
+    + apply IH; try assumption; cbn [g_kind g_off g_len].
+      * eapply result_kind_not_gmem; eassumption.
+      * pose proof (obs_extent_le_reach rk o ob). lia.
+  - split; [intros X; contradiction|]. apply IH; assumption.
+Qed.
+
+Lemma checker_sound_lemma : forall c obs, is_slice_root (c_rootk c) = true -> ok_C01 c obs = true ->
+  all_inside (c_len c) (root_geom c) (c_ops c) obs.
+Proof.
+  intros c obs Hs H. unfold ok_C01 in H. apply checker_sound_gen with (c := c); try assumption;
+    unfold root_geom; rewrite Hs; cbn [g_kind g_off g_len kind_eqb]; [reflexivity|lia].
 Qed.
